@@ -291,7 +291,7 @@ def leg_c(ctx, rng, n):
                 msg = impl.nofill_problem(r)
                 if not msg:
                     dd = r.todense()
-                    from sparse.numba_backend._utils import equivalent
+                    from impl import equivalent
                     cnt = int((~np.asarray(equivalent(dd, r.fill_value))).sum()) if dd.size else 0
                     if r.nnz != cnt:
                         msg = f"nnz {r.nnz} but {cnt} elements differ from the fill value"
@@ -355,7 +355,7 @@ def leg_expr(ctx, rng, n, max_depth):
     every generated program is run by the model, by the dense reference semantics, by the real library
     (COO inputs; a second run with GCXS or DOK inputs where the operation is offered) and by NumPy."""
     import sparse
-    from sparse.numba_backend._utils import equivalent
+    from impl import equivalent
 
     import c06_expr as E
 
